@@ -1,1 +1,85 @@
-(* C10 property theorems *)
+(* C10 — property theorems only: each closed by [exact], each followed by Print Assumptions.
+   Everything is stated over the interleaving model of Model.v: [step c s t] is the step of action t in
+   state s under configuration c (source kind, fault injected into Start, fixed/old code, fairness),
+   [Reachable (step c) (Initial n B) s] ranges over EVERY schedule from every initial state with n Stop
+   callers (any n) and budget B. *)
+From Coq Require Import List Arith Lia Bool.
+From Dastard Require Import C10.Conc C10.Model C10.Spec C10.Proofs C10.Proofs2.
+Import ListNotations.
+
+(* In every reachable state: nothing has crashed; Active implies the run-done counter is 1 and the core
+   loop has not finished (and exists once Start has returned); a finished core loop implies Inactive
+   with counter 0; at most one Stop caller is on the waiting path; the lock is held exactly when one
+   caller is inside Stop's critical section; the counter never exceeds 1. *)
+Theorem lifecycle_invariants :
+  forall n B c s, Reachable (step c) (Initial n B) s ->
+    crashed s = false /\
+    (sst s = Active -> rd s = 1 /\ core s <> CDone /\ (starter s = StDone ROk -> core s <> CNone)) /\
+    (core s = CDone -> sst s = Inactive /\ rd s = 0) /\
+    mainp (st s) <= 1 /\
+    (lock s = true <-> inlock (st s) = 1) /\
+    rd s <= 1.
+Proof. exact lifecycle_inv. Qed.
+Print Assumptions lifecycle_invariants.
+
+(* Start takes its first step only from Inactive (from ANY state, reachable or not): otherwise it
+   returns an error and changes nothing. *)
+Theorem start_only_inactive :
+  forall c s s', starter s = StIdle -> step c s TStarter = Some s' ->
+    (sst s = Inactive /\ sst s' = Starting /\ starter s' = StAt SP1)
+    \/ (sst s <> Inactive /\ starter s' = StRet RErr /\ sst s' = sst s /\ rd s' = rd s /\ core s' = core s /\ prod s' = prod s).
+Proof. exact start_first_step. Qed.
+Print Assumptions start_only_inactive.
+
+(* ... and the step with which Start succeeds leaves the source Active, counter 1, core loop spawned,
+   producer running. *)
+Theorem start_success_is_active :
+  forall n B c s s', Reachable (step c) (Initial n B) s -> starter s = StDo SP6 -> step c s TStarter = Some s' ->
+    starter s' = StRet ROk /\ sst s' = Active /\ rd s' = 1 /\ core s' = CAtSel /\ prod s' <> PNone.
+Proof. exact start_success_step. Qed.
+Print Assumptions start_success_is_active.
+
+(* Once Start and all n >= 1 Stop calls have returned (whatever the schedule, whatever ended the run):
+   Inactive, core loop and producer finished, writing stopped, nothing held, lock free, counter 0. *)
+Theorem stop_postcondition :
+  forall n B c s, Reachable (step c) (Initial n B) s -> c_fixed c = true -> 1 <= n ->
+    starter_done s = true -> stoppers_done n s = true ->
+    sst s = Inactive /\ workers_exited s = true /\ writing s = false /\ dev s = false /\ adapter s = false
+    /\ lock s = false /\ rd s = 0.
+Proof. exact stop_post. Qed.
+Print Assumptions stop_postcondition.
+
+(* ... and the same source object is then as good as new: with a new Start call, any number m of new
+   Stop callers and a new budget it is again an Initial state, so every theorem here applies to the next
+   cycle (any number of cycles).  Also after a failed Start (n may be 0 then). *)
+Theorem stop_restartable :
+  forall n B c s m B', Reachable (step c) (Initial n B) s -> c_fixed c = true ->
+    starter_done s = true -> stoppers_done n s = true ->
+    (1 <= n \/ exists r, starter s = StDone r /\ r = RErr) ->
+    Initial m B' (rearm m B' s).
+Proof. exact restartable. Qed.
+Print Assumptions stop_restartable.
+
+(* No reachable state is deadlocked: some action is enabled unless every thread has finished. *)
+Theorem no_deadlock :
+  forall n B c s, Reachable (step c) (Initial n B) s ->
+    (exists t s', step c s t = Some s') \/ finished n s = true.
+Proof. exact no_deadlock_reach. Qed.
+Print Assumptions no_deadlock.
+
+(* A Start that fails at any step (any fault, any source kind) leaves the source Inactive, with no
+   device open, no adapter running, no worker, counter 0. *)
+Theorem failed_start_releases :
+  forall n B c s, Reachable (step c) (Initial n B) s -> c_fixed c = true ->
+    (starter s = StRet RErr \/ starter s = StDone RErr) ->
+    sst s = Inactive /\ dev s = false /\ adapter s = false /\ core s = CNone /\ prod s = PNone /\ rd s = 0 /\ writing s = false.
+Proof. exact failed_start. Qed.
+Print Assumptions failed_start_releases.
+
+(* The code before the fix: Abaco with no data arriving yet — Start fails in PrepareRun and the devices
+   opened by Sample stay open. *)
+Theorem failed_start_releases_refuted_pre_fix :
+  exists s, run (step (mkCfg KAbaco FPrepare false false false)) (init_state 0 0) (repeat TStarter 8) = Some s
+            /\ starter s = StDone RErr /\ sst s = Inactive /\ dev s = true.
+Proof. exact failed_start_old_leaks. Qed.
+Print Assumptions failed_start_releases_refuted_pre_fix.
